@@ -60,10 +60,52 @@ def check(ctx):
     ctx.rule("C03-F", "zero-width skip: beyond the known integer-division case (K3) a column holding text cannot be shrunk to "
              "zero — the layout decision and the shrink loop agree on the separator count")
     ctx.rule("C03-G", "no order-perturbing operation on node/row/cell/renderer/line sequences outside reviewed idioms")
+    ctx.rule("C03-H", "a node kind that a parent selects its children by (li under ol, dt/dd under dl, tbody/tr/td under "
+             "table/tbody/tr) is never wrapped into another kind by insert_child (a wrapped child would be filtered out)")
     ctx.guard("C03-F", widths.rule_min_size_matches_shrink, "C03-F")
+    ctx.guard("C03-H", rule_h)
     for rid, fn in (("C03-A", rule_a), ("C03-B", rule_b), ("C03-C", rule_c), ("C03-D", rule_d), ("C03-E", rule_e),
                     ("C03-G", rule_g)):
         ctx.guard(rid, fn)
+
+
+SELECTOR_FNS = ("process_dom_node", "table_to_render_tree", "tbody_to_render_tree", "tr_to_render_tree")
+
+
+def rule_h(ctx):
+    """insert_child attaches a marker (or generated content) to an existing node either in place (pushing into the
+    node's children) or by wrapping both into a new Container.  Parents that pick their children by kind — the `ol`
+    filter keeps ListItem, the `dl` filter Dt/Dd, the table reducers TableBody/TableRow/TableCell — would silently drop a
+    wrapped child, text included.  Sibling agreement: every kind some parent selects by is handled in place."""
+    F = ctx.facts
+    info = F.adt("RenderNodeInfo")
+    names = {v["discr"]: v["name"] for v in info["variants"]}
+    ic = F.one("insert_child")
+    disp = find_dispatch(ic, "RenderNodeInfo", 3)
+    inplace = {names[v] for v, tb in ic.term(disp)["targets"]}
+    other = ic.term(disp)["otherwise"]
+    # the otherwise arm is the one that builds the wrapping Container
+    wraps = other is not None and any((st.get("rv") or {}).get("variant") == "Container" for x in ic.reach_from(other) for st in ic.stmts(x))
+    ctx.check(wraps, "C03-H", "insert_child:default-arm-wraps", ic.span, ic.id,
+              "expected the default arm of insert_child to build Container[new, orig]")
+    selected = {}
+    for b in F.bodies.values():
+        root = b.root if b.kind == "Closure" else b.id
+        if not any(ends(root, f) for f in SELECTOR_FNS):
+            continue
+        for a in sorted(b.reachable()):
+            t = b.term(a)
+            if t["k"] != "switch":
+                continue
+            neg, src = b.switch_source(a)
+            if src[0] == "discr" and src[1]["ty"].startswith("RenderNodeInfo") and len(t["targets"]) <= 4 and t["otherwise"] is not None:
+                for v, tb in t["targets"]:
+                    selected.setdefault(names[v], fn_key(b))
+    ctx.floor("C03-H", "node kinds that parents select children by", len(selected), 6)
+    for vn, where in sorted(selected.items()):
+        ctx.check(vn in inplace, "C03-H", "insert_child:in-place:%s" % vn, ic.span, ic.id,
+                  "%s selects its children by the kind %s, but insert_child wraps a %s into a Container when a marker or "
+                  "generated content is attached to it: such a child is then dropped with its text" % (where, vn, vn))
 
 
 def in_build(b):
